@@ -503,7 +503,11 @@ def _structure_harmonics(eng, ctx, ph, sh, mp, facts, coeffs):
     ctx.instance("coefficient probes", len(probes), 1)
     for eg in probes:
         Lc, Lw = eg.loops[1], eg.loops[2]
-        cel = ("elem", sh.loop_info[Lc].get("iter"), Lc)
+        it_c = sh.loop_info[Lc].get("iter")
+        if it_c is not None and it_c[0] == "gval" and isinstance(it_c[1].v, dict):
+            # `for key in TABLE: field, kind = TABLE[key]`: the evaluator reads TABLE[key] as the element of TABLE.values()
+            it_c = sh.lift(it_c[1].v.values())
+        cel = ("elem", it_c, Lc)
         lsts = [e for e in sh.effects if e.kind == "setitem" and e.loops == (Lo, Lc) and e.target[2] == ("proj", cel, 1) and e.term[0] == "list" and not e.term[1]]
         if not lsts:
             # the list is built first (e.g. by a helper) and stored afterwards: layer[kind] = <the list the probe loop appended to>
